@@ -118,6 +118,8 @@ static inline void viter_inc(viter *i) { VERIF_STD_PRE(i->idx < i->c->size, "++ 
 static inline void viter_dec(viter *i) { VERIF_STD_PRE(i->idx > 0, "-- on the begin iterator"); i->idx = i->idx - 1; }
 static inline vref viter_deref(const viter *i) { VERIF_STD_PRE(i->idx < i->c->size, "dereference of an iterator that is not dereferenceable"); return i->idx; }
 static inline bool viter_eq(const viter *a, const viter *b) { return a->idx == b->idx; }
+static inline viter viter_prev(viter i) { VERIF_STD_PRE(i.idx > 0, "std::prev on the begin iterator"); i.idx = i.idx - 1; return i; }
+static inline viter viter_next(viter i) { VERIF_STD_PRE(i.idx < i.c->size, "std::next on the end iterator"); i.idx = i.idx + 1; return i; }
 static inline void vseq_insert(vseq *c, viter pos, velem v) { VERIF_STD_PRE(pos.c == c && pos.idx <= c->size, "insert: iterator in [begin, end] of this container"); VERIF_STD_PRE(c->size < c->cap, "ghost capacity (allocation succeeds)"); c->size = c->size + 1; c->op = VOP_insert; c->op_pos = pos.idx; }
 static inline void vseq_erase(vseq *c, viter pos) { VERIF_STD_PRE(pos.c == c && pos.idx < c->size, "erase: dereferenceable iterator of this container"); c->size = c->size - 1; c->op = VOP_erase; c->op_pos = pos.idx; }
 static inline vref vseq_back(const vseq *c) { VERIF_STD_PRE(c->size > 0, "back() on an empty container"); return c->size - 1; }
